@@ -18,6 +18,8 @@ EXPLANATION = (
     'so between gates the most recent data is used.  Equality with a reference state machine on concrete histories is '
     'not decided (it follows from the decided clauses plus the numerical properties C01/C04).')
 
+NOT_DECIDED = 'equality with a reference state machine on concrete histories'
+
 
 def run(ctx: Ctx) -> None:
     ctx.do(R.rule_gates)
